@@ -20,6 +20,7 @@ import CxVerif.Proofs.SimdSha256Lanes
 import CxVerif.Proofs.GlueSimd
 import CxVerif.Proofs.KeccakTactic
 import CxVerif.Proofs.SimdBits
+import CxVerif.Proofs.GlueSha2Drv
 namespace Cx.Proofs.GlueSimdSha
 open Cx Cx.Intrinsics Cx.Impl Cx.Impl.Simd Cx.Impl.SimdSha256 Cx.Impl.Sha2 Cx.Spec.Sha2 Cx.Proofs.SimdSha256
 
@@ -761,7 +762,7 @@ theorem digest_block_src_eq_model (state : W8 UInt32) (block : Bytes) :
     obtain ⟨state1, block1, sched1⟩ := st
     dsimp only [Except.toOption, Option.map]
     by_cases h0 : block1.length > 0
-    · rw [if_pos h0, if_pos h0]
+    · rw [if_pos h0, if_pos h0, Cx.Proofs.GlueSha2Drv.reference256_eq_model]   -- the GENERATED `reference::digest_block` = the model's
       cases Impl256.digest_block state1 block1 <;> rfl
     · rw [if_neg h0, if_neg h0]
 
